@@ -1,7 +1,7 @@
-\* thorough design check 1: as MC_StateBuffer.cfg with <= 3 log entries in total
+\* thorough design check 1: contracts only, <= 3 log entries in total, 2 snapshot levels
 SPECIFICATION Spec
 CONSTANTS
-  Accts = {"a1"}
+  Accts = {}
   Ctrs = {"c1", "c2"}
   Keys = {"k1"}
   Vals = {"v1", "v2"}
